@@ -372,10 +372,13 @@ def run_harness(prop, tier, seed, outdir, replay=None):
             for cr in (meta.get("crashes") or []):
                 cr["harness_index"] = k
                 merged["crashes"].append(cr)
-            for key in ("exhaustive_scope", "traces_validated_against_impl", "faults_injected"):
+            for key in ("exhaustive_scope", "traces_validated_against_impl", "faults_injected", "states", "transitions"):
                 if key in meta:
-                    merged.setdefault(key, "")
-                    merged[key] = ("%s; " % merged[key] if merged[key] else "") + "[%s] %s" % (h["cmd"], meta[key])
+                    if isinstance(meta[key], int) and not isinstance(meta[key], bool):
+                        merged[key] = merged.get(key, 0) + meta[key]
+                    else:
+                        merged.setdefault(key, "")
+                        merged[key] = ("%s; " % merged[key] if merged[key] else "") + "[%s] %s" % (h["cmd"], meta[key])
             shutil.rmtree(sub, ignore_errors=True)
     merged["shards"] = nshard
     merged["rule"] = " || ".join(merged["rule"])
@@ -647,6 +650,12 @@ def main(argv):
         for k in ("exhaustive_scope", "exhaustive", "traces_validated_against_impl", "faults_injected", "states", "transitions"):
             if k in meta:
                 cov[k] = meta[k]
+        # keep the schema's types: free text goes to *_note keys
+        if "exhaustive" in cov and not isinstance(cov["exhaustive"], bool):
+            cov["exhaustive_scope"] = ("%s; " % cov["exhaustive_scope"] if cov.get("exhaustive_scope") else "") + str(cov.pop("exhaustive"))
+        for k in ("traces_validated_against_impl", "states", "transitions"):
+            if k in cov and (isinstance(cov[k], bool) or not isinstance(cov[k], int)):
+                cov[k + "_note"] = str(cov.pop(k))
     if coqchk:
         cov["coqchk"] = coqchk
     if notes:
